@@ -209,4 +209,41 @@ func init() {
 		},
 		Outside: []string{"sequences longer than the listed depth (quick: 2 calls from a fresh simulator, or 1 call after a prefix of 1..2 spawned warriors; thorough: 3 / 2)", "cores other than 3..4 cells", "sampling beyond the exhaustive depth is not done (solver-based only)"},
 	})
+
+	Properties = append(Properties, &PropertySpec{
+		ID: "C03",
+		Harnesses: []HarnessSpec{
+			{Name: "C03_default94", Expect: []string{"end", "default-modifier"}},
+			{Name: "C03_legal88", Expect: []string{"accepted", "rejected"}},
+		},
+	})
+	Properties = append(Properties, &PropertySpec{
+		ID: "C07",
+		Harnesses: []HarnessSpec{
+			{Name: "C07_signs", Expect: []string{"end", "sign-stage-preserves-meaning"}, Witnesses: 8,
+				Quick:    grid([]string{"L"}, seq(0, 5)),
+				Thorough: grid([]string{"L"}, seq(0, 7))},
+		},
+	})
+
+	Properties = append(Properties, &PropertySpec{
+		ID: "C06",
+		Harnesses: []HarnessSpec{
+			{Name: "C06_line", Expect: []string{"done", "accepted", "fields-below-M", "denoted-modes"}, Witnesses: 6,
+				Quick:    grid([]string{"M", "dialect", "op"}, []int{8, 8000}, []int{1}, seq(0, 16)),
+				Thorough: grid([]string{"M", "dialect", "op"}, []int{3, 8, 8000, 8192, 55440}, []int{1}, seq(0, 16))},
+			{Name: "C06_line", Expect: []string{"done"}, Witnesses: 6,
+				Quick:    grid([]string{"M", "dialect", "op"}, []int{8, 8000}, []int{0}, seq(0, 16)),
+				Thorough: grid([]string{"M", "dialect", "op"}, []int{3, 8, 8000, 8192, 55440}, []int{0}, seq(0, 16))},
+			{Name: "C06_line", Expect: []string{"rejected"},
+				Quick:    grid([]string{"M", "dialect", "op"}, []int{8}, []int{0, 1}, []int{17}),
+				Thorough: grid([]string{"M", "dialect", "op"}, []int{8, 8000}, []int{0, 1}, []int{17})},
+			{Name: "C06_line", Expect: []string{"accepted", "rejected", "denoted-fields"}, Witnesses: 6,
+				Quick:    grid([]string{"M", "dialect", "op", "values"}, []int{8, 8000}, []int{0, 1}, []int{0, 1}, []int{1}),
+				Thorough: grid([]string{"M", "dialect", "op", "values"}, []int{3, 8, 8000, 8192, 55440}, []int{0, 1}, []int{0, 1, 11}, []int{1})},
+			{Name: "C06_program", Expect: []string{"done"}, Witnesses: 4,
+				Quick:    grid([]string{"M", "n", "max", "dir"}, []int{8000}, []int{0, 1, 2, 3}, []int{0, 1, 2, 3}, []int{0, 1, 2, 3}),
+				Thorough: grid([]string{"M", "n", "max", "dir"}, []int{8, 8000}, []int{0, 1, 2, 3, 4}, []int{0, 1, 2, 3, 4}, []int{0, 1, 2, 3})},
+		},
+	})
 }
